@@ -1,6 +1,88 @@
 package c09
 
-// pinned regression witnesses (cases that failed on the pinned tree); built by hand-written constructors.
-var pinned = []func() *caseT{}
+import "verif/harness/genref"
 
-func pinnedCase(i int) *caseT { return pinned[i]() }
+// pinnedT is a hand-written regression witness: program text, history, context assignments and the event log
+// the specification prescribes (checked against the repaired tree and by hand against V8).
+type pinnedT struct {
+	name   string
+	src    string
+	hist   []genref.Op
+	two    bool
+	create [2][2]int
+	ctxA   []ctxSpec
+	ctxB   []ctxSpec
+	expect []string
+}
+
+func top() ctxSpec { return ctxSpec{Chain: []string{"top"}, Term: "js"} }
+func cx(term string, chain ...string) ctxSpec {
+	return ctxSpec{Chain: chain, Term: term}
+}
+func tops(n int) []ctxSpec {
+	var l []ctxSpec
+	for i := 0; i < n; i++ {
+		l = append(l, top())
+	}
+	return l
+}
+
+// pinned regression witnesses (cases that failed on the pinned tree).
+var pinned = []pinnedT{
+	{ // inbox/C09-yieldstar-reentrancy.md
+		name: "yieldstar-reentrancy",
+		src: `var REOPS = [{o:false, kind:"next", v:1, rethrow:true, go:false}]; var AWMODE = [];
+function* gen(me, a, b) { try { log(yield* mkIter(me, 1, 2, 1, 1, 0, 0)); } catch (e) { log("caught", e); } return 5; }`,
+		hist:   []genref.Op{{Slot: 0, Kind: "next", Val: 0}},
+		create: [2][2]int{{1, 2}, {1, 2}},
+		ctxA:   tops(2), ctxB: []ctxSpec{top(), cx("js", "map")},
+		expect: []string{"L s:2:I1", "L s:2:N1 d:3ff0000000000000 u", "Td0 E:TypeError", "L s:6:caught E:TypeError", "R0 {#1 value:d:4014000000000000,done:b:true}"},
+	},
+	{ // inbox/C09-stale-tryframe-pointer.md
+		name: "stale-tryframe-pointer",
+		src: `var REOPS = []; var AWMODE = [];
+function* inn1(me, a) { for (let i = 0; i < 3; i++) { try { log(yield [yield a]); } finally { } } }
+function* gen(me, a, b) { try { L3: { for (let x of inn1(me, "")) { yield (yield x); } } } finally { } log("after"); yield b; }`,
+		hist:   []genref.Op{{Slot: 0, Kind: "next", Val: 3}, {Slot: 0, Kind: "return", Val: 2}, {Slot: 0, Kind: "next", Val: 0}},
+		two:    true,
+		create: [2][2]int{{6, 9}, {4, 2}},
+		ctxA:   []ctxSpec{top(), top(), top(), cx("js", "map", "getter"), top()}, ctxB: tops(5),
+		expect: []string{"R0 {#1 value:s:0:,done:b:false}", "R1 {#2 value:d:401c000000000000,done:b:true}", "R2 {#3 value:u,done:b:true}"},
+	},
+	{ // inbox/C09-arrow-arguments-not-captured.md
+		name: "arrow-arguments",
+		src: `var REOPS = []; var AWMODE = [];
+function* gen(me, a, b) { var f = () => arguments[1]; yield 1; yield f(); }`,
+		hist:   []genref.Op{{Slot: 0, Kind: "next", Val: 0}, {Slot: 0, Kind: "next", Val: 0}},
+		create: [2][2]int{{2, 3}, {1, 2}},
+		ctxA:   tops(3), ctxB: []ctxSpec{top(), cx("gonext", "gen"), cx("js", "deep")},
+		expect: []string{"R0 {#1 value:d:3ff0000000000000,done:b:false}", "R1 {#2 value:d:401c000000000000,done:b:false}"},
+	},
+	{ // inbox/C08-generator-return-throw-in-nested-finally.md, C03-generator-return-caught-panic-in-finally.md (other checks' findings) + throw() at a yield inside such a finally
+		name: "throw-into-finally-entered-by-return",
+		src: `var REOPS = []; var AWMODE = [];
+function* gen(me, a, b) { try { try { yield 1; } finally { yield 2; } } catch (e) { log("caught", e); yield 3; } return 4; }`,
+		hist: []genref.Op{{Slot: 0, Kind: "next", Val: 0}, {Slot: 0, Kind: "return", Val: 2}, {Slot: 0, Kind: "throw", Val: 1},
+			{Slot: 0, Kind: "next", Val: 0}, {Slot: 0, Kind: "next", Val: 0}},
+		create: [2][2]int{{1, 2}, {1, 2}},
+		ctxA:   tops(6), ctxB: []ctxSpec{top(), top(), cx("js", "tryf"), cx("gotop"), top(), top()},
+		expect: []string{"R0 {#1 value:d:3ff0000000000000,done:b:false}", "R1 {#2 value:d:4000000000000000,done:b:false}",
+			"L s:6:caught d:3ff0000000000000", "R2 {#3 value:d:4008000000000000,done:b:false}", "R3 {#4 value:d:4010000000000000,done:b:true}", "R4 {#5 value:u,done:b:true}"},
+	},
+	{
+		name: "native-exception-caught-in-finally-during-return",
+		src: `var REOPS = [{o:false, kind:"next", v:1, rethrow:true, go:false}]; var AWMODE = [];
+function* gen(me, a, b) { try { yield 1; } finally { try { drive(me, 0); } catch (e) { log("caught", e); } } }`,
+		hist:   []genref.Op{{Slot: 0, Kind: "next", Val: 0}, {Slot: 0, Kind: "return", Val: 2}, {Slot: 0, Kind: "next", Val: 0}},
+		create: [2][2]int{{1, 2}, {1, 2}},
+		ctxA:   tops(4), ctxB: []ctxSpec{top(), top(), cx("js", "reduce"), top()},
+		expect: []string{"R0 {#1 value:d:3ff0000000000000,done:b:false}", "Td0 E:TypeError", "L s:6:caught E:TypeError",
+			"R1 {#2 value:d:401c000000000000,done:b:true}", "R2 {#3 value:u,done:b:true}"},
+	},
+}
+
+func pinnedCase(i int) *caseT {
+	p := pinned[i]
+	return &caseT{Mode: "gen", Hist: p.hist, Two: p.two, CrArgs: p.create, CtxA: p.ctxA, CtxB: p.ctxB,
+		SrcOverride: p.src, Expect: p.expect, Pinned: p.name}
+}
